@@ -8,6 +8,7 @@ Property theorems over Model/Layout.lean (helper lemmas private).
   indexInData_spec, param_lookup_own   every object is paired with its own row of the per-class datasets
   unpack_pack_locations   all sequences of the four locator kinds, all multi-index lengths
   grid_dedup_lookup    de-duplicated grid table gives every object its own grid parameters back
+  ancestors_spec       `computeAncestors` (depth 1) = the parent's serial number of every row, for every tree
 Parameter value encoding is C05; h5py, blueprint re-construction of components, grids' `reduce()` and the child
 sort key are parameters (correspondence / whole-stack oracle only).
 -/
@@ -297,6 +298,89 @@ theorem grid_dedup_lookup (keys : List (Option Nat)) (k : Nat) (hk : k < keys.le
     exact ⟨i, by simp [hi], idxOf_get _ g i hi⟩
 
 
+/-! ### computeAncestors -/
+
+
+mutual
+/-- the parent's serial number of every row, read off the tree -/
+def parentsT (p : Option Nat) : Tree → List (Option Nat)
+  | .node lab kids => p :: parentsF (some lab.serial) kids
+def parentsF (p : Option Nat) : Forest → List (Option Nat)
+  | .nil => []
+  | .cons t f => parentsT p t ++ parentsF p f
+end
+
+private def snRow (r : Row) : Nat × Nat := (r.1.serial, r.2)
+
+private def dec : List (Nat × Nat) → List (Nat × Nat)
+  | [] => []
+  | (s, c) :: t => (s, c - 1) :: t
+
+private def popZ (st : List (Nat × Nat)) : List (Nat × Nat) := st.dropWhile (fun p => p.2 = 0)
+
+private theorem popZ_pos (s c : Nat) (st : List (Nat × Nat)) (h : 0 < c) : popZ ((s, c) :: st) = (s, c) :: st := by
+  have : ¬ c = 0 := by omega
+  simp [popZ, List.dropWhile, this]
+
+private theorem popZ_zero (s : Nat) (st : List (Nat × Nat)) : popZ ((s, 0) :: st) = popZ st := by
+  simp [popZ, List.dropWhile]
+
+private theorem go_step (sn nc : Nat) (rest : List (Nat × Nat)) (st : List (Nat × Nat)) :
+    ancestorsGo ((sn, nc) :: rest) st =
+      (st.head?.map (·.1)) :: ancestorsGo rest (popZ (if nc > 0 then (sn, nc) :: dec st else dec st)) := by
+  cases st with
+  | nil => simp [ancestorsGo, dec, popZ]
+  | cons h t => obtain ⟨s, c⟩ := h; simp [ancestorsGo, dec, popZ]
+
+mutual
+private theorem anc_T : ∀ (t : Tree) (rest : List (Nat × Nat)) (st : List (Nat × Nat)),
+    ancestorsGo ((flattenT t).map snRow ++ rest) st =
+      parentsT (st.head?.map (·.1)) t ++ ancestorsGo rest (popZ (dec st))
+  | .node lab kids, rest, st => by
+    simp only [flattenT, List.map_cons, List.cons_append, snRow, parentsT]
+    rw [go_step]
+    cases kids with
+    | nil => simp [Forest.length, flattenF, parentsF]
+    | cons t f =>
+      have hpos : 0 < (Forest.cons t f).length := by simp [Forest.length]
+      simp only [hpos, if_true]
+      rw [popZ_pos _ _ _ hpos]
+      have := anc_F (Forest.cons t f) rest lab.serial (Forest.cons t f).length (dec st) hpos (Nat.le_refl _)
+      rw [this, Nat.sub_self, popZ_zero]
+private theorem anc_F : ∀ (f : Forest) (rest : List (Nat × Nat)) (s c : Nat) (st : List (Nat × Nat)),
+    0 < c → f.length ≤ c →
+    ancestorsGo ((flattenF f).map snRow ++ rest) ((s, c) :: st) =
+      parentsF (some s) f ++ ancestorsGo rest (popZ ((s, c - f.length) :: st))
+  | .nil, rest, s, c, st, hc, _ => by
+    simp [flattenF, parentsF, Forest.length, popZ_pos _ _ _ hc]
+  | .cons t f, rest, s, c, st, hc, hk => by
+    simp only [flattenF, List.map_append, List.append_assoc, parentsF]
+    rw [anc_T t ((flattenF f).map snRow ++ rest) ((s, c) :: st)]
+    simp only [List.head?_cons, Option.map_some, dec]
+    cases f with
+    | nil =>
+      simp [flattenF, parentsF, Forest.length]
+    | cons t' f' =>
+      have hl : (Forest.cons t (Forest.cons t' f')).length = (Forest.cons t' f').length + 1 := rfl
+      have hl' : (Forest.cons t' f').length = f'.length + 1 := rfl
+      have h1 : 0 < c - 1 := by omega
+      rw [popZ_pos _ _ _ h1, anc_F (Forest.cons t' f') rest s (c - 1) st h1 (by omega)]
+      have e : c - 1 - (Forest.cons t' f').length = c - (Forest.cons t (Forest.cons t' f')).length := by omega
+      rw [e]
+end
+
+/-- **`computeAncestors` (depth 1) returns, for every row of a layout, the serial number of its parent**
+(none for the root), for every tree -/
+theorem ancestors_spec (t : Tree) :
+    ancestors ((flattenT t).map (fun r => (r.1.serial, r.2))) = parentsT none t := by
+  have := anc_T t [] []
+  simp only [List.append_nil, List.head?_nil, Option.map_none] at this
+  have hf : (fun r : Row => (r.1.serial, r.2)) = snRow := rfl
+  unfold ancestors
+  rw [hf, this]
+  simp [ancestorsGo]
+
+
 /-! ### non-vacuity -/
 
 private def exTree : Tree :=
@@ -309,6 +393,7 @@ example : (flattenT exTree).map (·.2) = [2, 2, 1, 0, 0, 0] := by decide
 example : indexInData ((flattenT exTree).map (·.1.ty)) = [0, 0, 0, 0, 1, 0] := by decide
 example : gridIndex ((flattenT exTree).map (·.1.grid)) = [none, some 0, some 1, none, some 1, some 0] := by decide
 example : (packLocs ((flattenT exTree).map (·.1.loc))).1 = [.N, .C, .I, .M 2, .I, .C] := by decide
+example : ancestors ((flattenT exTree).map (fun r => (r.1.serial, r.2))) = [none, some 0, some 1, some 5, some 1, some 0] := by decide
 /-- a truncated layout is refused, not silently completed -/
 example : compose ((flattenT exTree).take 4) = none := by decide
 example : compose (flattenT exTree ++ [(⟨9, 9, .none, none⟩, 0)]) = none := by decide
